@@ -171,6 +171,19 @@ def run_one(text, raw_on, file_on, suppress=(), spell="bool"):
 
     src = os.path.join(TMP, "doc.md")
     kw = dict(myst_enable_extensions=EXT, myst_substitutions={"rawsub": "<x-sentinel-777 a=\"1\">", "rawsub_inline": "<x-sentinel-778 a=\"1\">"}, raw_enabled=raw_on, file_insertion_enabled=file_on, doctitle_xform=False, myst_suppress_warnings=list(suppress))
+    conf_env = None
+    if spell.startswith("conf"):
+        # the switches written in a docutils.conf (strings, converted by docutils with the option's validator), not passed as Python values
+        _, section, k = spell.split(":")
+        k = int(k)
+        word = lambda on: (["yes", "true", "1", "on"] if on else ["no", "false", "0", "off"])[k % 4]  # noqa: E731
+        path = os.path.join(TMP, f"docutils_{section.replace(' ', '_')}_{k}_{int(bool(raw_on))}{int(bool(file_on))}.conf")
+        with open(path, "w") as f:
+            f.write(f"[{section}]\nraw_enabled: {word(raw_on)}\nfile_insertion_enabled: {word(file_on)}\n")
+        kw.pop("raw_enabled")
+        kw.pop("file_insertion_enabled")
+        conf_env = os.environ.get("DOCUTILSCONFIG")
+        os.environ["DOCUTILSCONFIG"] = path
     AUDIT.clear()
     AUDIT_STD.clear()
     AUDIT.enabled = AUDIT_STD.enabled = True
@@ -179,6 +192,11 @@ def run_one(text, raw_on, file_on, suppress=(), spell="bool"):
     out, w2 = drive.to_html(text, source_path=src, **kw)
     opens_all = [e for e in AUDIT.events + AUDIT_STD.events if e[0] == "open"]
     AUDIT.enabled = AUDIT_STD.enabled = False
+    if spell.startswith("conf"):
+        if conf_env is None:
+            os.environ.pop("DOCUTILSCONFIG", None)
+        else:
+            os.environ["DOCUTILSCONFIG"] = conf_env
     return doc, w, out, opens_parse, opens_all
 
 
@@ -284,7 +302,7 @@ def run_shard(ctx):
                 continue
         if i % ctx.nshards == ctx.shard % len(names):
             for cont in ("top", "quote", "list"):
-                case = {"kind": "single", "items": [[nm, cont]], "spell": ("bool", "int", "none-off")[n % 3]}
+                case = {"kind": "single", "items": [[nm, cont]], "spell": ("bool", "int", "none-off", f"conf:general:{n}", f"conf:parsers:{n}", f"conf:myst parser:{n}")[n % 6]}
                 eval_case(ctx, case)
                 ctx.case(repr(case), True)
                 n += 1
@@ -292,7 +310,7 @@ def run_shard(ctx):
     nr = 130 if quick else 6000
     for i in range(nr):
         items = [[R.choice(names), R.choice(["top", "top", "quote", "list"])] for _ in range(R.randint(2, 8))]
-        case = {"kind": "combo", "items": items, "suppress": R.choice([[], [], ["myst"], ["myst.*"], ["myst.strikethrough", "docutils"], ["myst", "ref", "docutils.*"]]), "spell": R.choice(["bool", "bool", "int", "none-off"])}
+        case = {"kind": "combo", "items": items, "suppress": R.choice([[], [], ["myst"], ["myst.*"], ["myst.strikethrough", "docutils"], ["myst", "ref", "docutils.*"]]), "spell": R.choice(["bool", "bool", "int", "none-off", f"conf:{R.choice(['general', 'parsers', 'myst parser'])}:{R.randrange(4)}"])}
         nt = eval_case(ctx, case)
         ctx.case(repr(case), bool(nt))
         if i < 2:
